@@ -484,6 +484,23 @@ type op struct {
 	Low    uint64   `json:"low,omitempty"`
 	High   uint64   `json:"high,omitempty"`
 	Keys   []string `json:"keys,omitempty"`
+	// Import: one transfer per key
+	Transfers []xfer `json:"transfers,omitempty"`
+}
+
+// xfer is a generated KVTransfer: Val nil = no simple value in the transfer.
+type xfer struct {
+	Val      *valSpec `json:"val,omitempty"`
+	Children []string `json:"children,omitempty"`
+	Lease    uint64   `json:"lease,omitempty"`
+}
+
+func (x xfer) model() kvmodel.Transfer {
+	t := kvmodel.Transfer{Children: x.Children, Lease: x.Lease}
+	if x.Val != nil {
+		t.Simple = x.Val.bytes()
+	}
+	return t
 }
 
 func (o op) String() string {
@@ -506,6 +523,12 @@ func (o op) String() string {
 		return fmt.Sprintf("RangeKeys(%d,%d)", o.Low, o.High)
 	case "RemoveKeys", "Export":
 		return fmt.Sprintf("%s(%q)", o.Kind, o.Keys)
+	case "Import":
+		parts := make([]string, len(o.Keys))
+		for i, k := range o.Keys {
+			parts[i] = fmt.Sprintf("%q=%s", k, o.Transfers[i].model())
+		}
+		return "Import(" + strings.Join(parts, ", ") + ")"
 	}
 	return o.Kind
 }
@@ -787,6 +810,17 @@ func (s *tracked) apply(rec *ev.Recorder, propID string, o op) (mm *mismatch, sk
 				return bad("export-mismatch", "key %q: got %s want %s", o.Keys[i], g, want[i]), false
 			}
 		}
+	case "Import":
+		vals := make([]*protocol.KVTransfer, len(o.Keys))
+		mvals := make([]kvmodel.Transfer, len(o.Keys))
+		for i := range o.Keys {
+			mvals[i] = o.Transfers[i].model()
+			vals[i] = toTransfer(o.Transfers[i].model())
+		}
+		if err := s.kv.Import(bg, byteKeys(o.Keys), vals); err != nil {
+			return bad("import-error", "returned %s, want nil", errName(err)), false
+		}
+		s.m.Import(byteKeys(o.Keys), mvals)
 	case "RemoveKeys":
 		if err := s.kv.RemoveKeys(bg, byteKeys(o.Keys)); err != nil {
 			return bad("removekeys-error", "returned %s, want nil", errName(err)), false
